@@ -44,11 +44,13 @@ def _job(args):
     import signal
     t0 = time.time()
 
+    budget = job_budget()
+
     def on_alarm(signum, frame):
-        raise Unsupported('time budget of %d s for this case exceeded' % JOB_BUDGET_S)
+        raise Unsupported('time budget of %d s for this case exceeded' % budget)
     try:
         signal.signal(signal.SIGALRM, on_alarm)
-        signal.alarm(JOB_BUDGET_S)
+        signal.alarm(budget)
     except Exception:
         pass
     try:
@@ -89,6 +91,10 @@ def _job(args):
                 'errors': ['%s: %s\n%s' % (type(e).__name__, e, traceback.format_exc()[-3000:])], 'covers': {},
                 'axioms': [], 'branch_queries': 0, 'solver_s': 0, 'wall_s': round(time.time() - t0, 3),
                 'sha256': None, 'assumptions': []}
+
+
+def job_budget():
+    return int(os.environ.get('PYVC_JOB_BUDGET_S', JOB_BUDGET_S))
 
 
 def _child(fn, job, conn):
@@ -247,7 +253,7 @@ def run_proof_jobs(contract_refs, facts, timeout_ms, procs):
             jobs.append((ref, case.get('label', 'case%d' % ci), facts, timeout_ms, None))
     if not jobs:
         return []
-    return run_jobs(_job, jobs, min(procs, len(jobs)), JOB_BUDGET_S + 120, _proof_timeout)
+    return run_jobs(_job, jobs, min(procs, len(jobs)), job_budget() + 120, _proof_timeout)
 
 
 def run_replay(replay_path):
@@ -360,8 +366,10 @@ def check_property(pid, spec, tier='quick', seed=0, procs=None, write_baseline=F
     facts = envfacts()
     timeout_ms = spec.get('timeout_ms', 20000) * (3 if tier == 'thorough' else 1)
     bounded_res = None
+    os.environ['VERIF_TIER'] = tier          # contracts may add cases in the thorough tier
     if tier == 'thorough':
         os.environ['PYVC_CROSSCHECK'] = os.environ.get('PYVC_CROSSCHECK', '2')      # sampled paths per outcome and case
+        os.environ.setdefault('PYVC_JOB_BUDGET_S', str(3 * JOB_BUDGET_S))            # the larger cases of the thorough tier
     reports = run_proof_jobs(spec.get('contracts', []), facts, timeout_ms, procs)
     known = load_known()
     baseline = load_baseline(pid)
